@@ -389,9 +389,9 @@ func (r *Run) requireEachSuccessPath(id, why string, f *ssa.Function, ctx core.C
 	n := 0
 	for _, p := range paths {
 		ret := p[len(p)-1].Instrs[len(p[len(p)-1].Instrs)-1].(*ssa.Return)
-		if ei >= 0 && isErrorTypeV(ret.Results[ei]) && !isNilConstV(ret.Results[ei]) {
+		if ei >= 0 && isErrorTypeV(core.RetOp(ret, ei)) && !isNilConstV(core.RetOp(ret, ei)) {
 			// not provably nil: treat a returned call error as failure only when the path says so
-			if !couldBeNil(ff, ret.Results[ei], rawPathFacts(ff, p)) {
+			if !couldBeNil(ff, core.RetOp(ret, ei), rawPathFacts(ff, p)) {
 				continue
 			}
 		}
@@ -399,7 +399,7 @@ func (r *Run) requireEachSuccessPath(id, why string, f *ssa.Function, ctx core.C
 		pf := pathFacts(ff, p)
 		if ei >= 0 {
 			// a tail-returned error that is nil on this (success) path means that call succeeded
-			t := ff.TB.Of(ret.Results[ei])
+			t := ff.TB.Of(core.RetOp(ret, ei))
 			if t.Op == "err" && t.Args[0].Op == "call" {
 				f := core.Fact{Kind: "ok", A: t.Args[0]}
 				pf[f.Key()] = f
